@@ -186,6 +186,23 @@ pub struct ExecOutcome {
     pub labels: Vec<String>,
 }
 
+/// does the text name a matrix type (`float4x4`, `half2x3`, ...)? The evaluators have no matrices.
+pub fn uses_matrix_types(text: &str) -> bool {
+    let b = text.as_bytes();
+    for base in ["float", "half", "int", "uint", "bool", "double"] {
+        let mut from = 0;
+        while let Some(i) = text[from..].find(base) {
+            let start = from + i;
+            let at = start + base.len();
+            if at + 2 < b.len() && b[at].is_ascii_digit() && b[at + 1] == b'x' && b[at + 2].is_ascii_digit() && (start == 0 || !(b[start - 1].is_ascii_alphanumeric() || b[start - 1] == b'_')) {
+                return true;
+            }
+            from = at;
+        }
+    }
+    false
+}
+
 pub fn dialect_of(tgt: Tgt) -> Dialect {
     match tgt {
         Tgt::Msl | Tgt::MetalBytecode => Dialect::Msl,
@@ -234,6 +251,9 @@ pub fn check_exec_named(source: &str, tgt: Tgt, arg_seed: u64, vectors: usize, e
         },
     };
     let d = dialect_of(tgt);
+    if uses_matrix_types(&text) {
+        return Verdict::Skip("matrix types are outside of the executable subset".into());
+    }
     let unit = match ctext::parse(&text) {
         Ok(u) => u,
         Err(e) => return Verdict::Fail { signature: format!("parse:{}", norm(&e)), detail: format!("emitted text does not parse as {:?}: {}\n{}", d, e, text) },
@@ -683,6 +703,9 @@ pub fn check_exec_entry(base: &str, tgt: Tgt, arg_seed: u64, vectors: usize) -> 
         },
     };
     let d = dialect_of(tgt);
+    if uses_matrix_types(&text) {
+        return Verdict::Skip("matrix types are outside of the executable subset".into());
+    }
     let unit = match ctext::parse(&text) {
         Ok(u) => u,
         Err(e) => return Verdict::Fail { signature: format!("parse:{}", norm(&e)), detail: format!("emitted text does not parse as {:?}: {}\n{}", d, e, text) },
@@ -808,6 +831,15 @@ use crate::xshape::{self, Variant};
 pub fn run_common(ctx: &mut Ctx, targets: &'static [Tgt], check: fn(&Value) -> Verdict) {
     use proptest::prelude::*;
     let msl = targets.contains(&Tgt::Msl);
+    if ctx.tier == crate::common::Tier::Thorough && std::env::var("VERIF_FUZZ_ONLY").is_ok() {
+        // exploration aid: only the coverage-guided stage
+        let prof = if msl { progen::Profile::exec_msl() } else { progen::Profile::exec_hlsl() };
+        let seeds: Vec<Vec<u8>> = crate::common::sample_strategy(&progen::choices_strategy(500), ctx.seed ^ 0xf001, 600).iter().map(|ch| progen::generate(ch, prof.clone()).1.into_bytes()).collect();
+        let tgt_name = if msl { "msl" } else { "dx" };
+        let to_record = |bytes: &[u8]| record(&String::from_utf8_lossy(bytes), Tgt::from_name(tgt_name), 1);
+        crate::fuzz::campaign(ctx, "text_property", Some(if msl { "C02" } else { "C01" }), seeds, 300, &to_record, &check);
+        return;
+    }
     // ---- exhaustive operator shapes
     let n_ops = ctx.tier.pick(2usize, 3usize);
     let mut variants: Vec<(String, Variant, usize)> = vec![("int".into(), Variant::Int, n_ops), ("float".into(), Variant::Float, n_ops)];
@@ -898,6 +930,29 @@ pub fn run_common(ctx: &mut Ctx, targets: &'static [Tgt], check: fn(&Value) -> V
             other => other,
         });
     }
+    // ---- vectors of one element (Metal writes them as scalars)
+    {
+        const ONE: [&str; 8] = [
+            "uint1 zf(uint3 v) { return v; }\n",
+            "uint zf(uint s) { uint1 w = (uint1)s; uint b = w; return b + 1u; }\n",
+            "float1 zf(float3 v) { float1 d = (float1)v; return d; }\n",
+            "uint zf(uint3 v) { return select(v.x > 1u, (uint)1u, (uint1)7u) + v.x; }\n",
+            "int zf(int1 a, int b) { int1 c = a + b; c += 2; return c * a; }\n",
+            "float2 zf(float1 a, float2 b) { return a * b + a; }\n",
+            "int1 zf(int4 v) { int1 r = v.w; r = (int1)v.yz; return r; }\n",
+            "bool1 zf(float1 a, float b) { bool1 r = a < b; return r; }\n",
+        ];
+        let n_t = targets.len() as u64;
+        let make = |i: u64| record(ONE[(i / n_t) as usize], targets[(i % n_t) as usize], 0x1e1 ^ i);
+        ctx.run_enum("one_element_vectors", 8 * n_t, true, make, |i| match check(&make(i)) {
+            Verdict::Pass { nontrivial, mut labels } => {
+                labels.retain(|l| !l.starts_with("compared_functions"));
+                labels.push("one_element_vector".into());
+                Verdict::Pass { nontrivial, labels }
+            }
+            other => other,
+        });
+    }
     // ---- generated programs
     let prof = if msl { progen::Profile::exec_msl() } else { progen::Profile::exec_hlsl() };
     let n_t = targets.len();
@@ -925,6 +980,17 @@ pub fn run_common(ctx: &mut Ctx, targets: &'static [Tgt], check: fn(&Value) -> V
     ctx.require_label("global_compared", 50);
     if msl {
         ctx.require_label("implicit_globals", 50);
+    }
+    if ctx.tier == crate::common::Tier::Thorough && ctx.failures.is_empty() {
+        // coverage-guided stage: the fuzzer mutates generated programs; the oracle in the target is the differential
+        // execution of this check
+        let mut seeds: Vec<Vec<u8>> = crate::common::sample_strategy(&progen::choices_strategy(500), ctx.seed ^ 0xf001, 400).iter().map(|ch| progen::generate(ch, prof.clone()).1.into_bytes()).collect();
+        for i in (0..8100u64).step_by(97) {
+            seeds.push(alias_source(i).into_bytes());
+        }
+        let tgt_name = if msl { "msl" } else { "dx" };
+        let to_record = |bytes: &[u8]| record(&String::from_utf8_lossy(bytes), Tgt::from_name(tgt_name), 1);
+        crate::fuzz::campaign(ctx, "text_property", Some(if msl { "C02" } else { "C01" }), seeds, 300, &to_record, &check);
     }
     let disagreements: u64 = ctx.stats.known_hits.values().sum::<u64>() + ctx.failures.len() as u64;
     ctx.extra.insert("programs".into(), json!(ctx.stats.nontrivial.len() as u64 + ctx.stats.nontrivial_by_construction));
